@@ -137,19 +137,26 @@ def check_property(pid, tier, seed):
     bounded_cov = []
     for part in registry.BOUNDED_PARTS.get(pid, []):
         from bounded import parts
+        t_part = time.time()
         res = getattr(parts, part)(tier, seed)
+        res['coverage']['part'] = part
+        res['coverage']['seconds'] = round(time.time() - t_part, 1)
         bounded_cov.append(res['coverage'])
+        n_part = 0
         for v in res['violations']:
+            v['part'] = part
+            v['seed'] = seed
             m = findings.match_bounded(kf, pid, v)
             if m is not None:
                 msg = 'KNOWN-FINDING: property=%s %s' % (pid, m['what'])
                 if msg not in known_printed:
                     known_printed.append(msg)
                 continue
+            n_part += 1
+            if n_part > 3:
+                continue
             path = chk.write_replay(pid, v['check'], dict(v, property=pid, kind='bounded stand-in: failing input on the real code'))
             violations.append((v['check'], path, ''))
-            if len([x for x in violations]) > 5:
-                break
 
     # ---- evidence
     level = registry.LEVELS.get(pid, 'proof')
